@@ -30,7 +30,7 @@ LEVEL_TEXT = ("For every instance of the finite problem x option product the rea
               "object is stepped one update at a time and the theory's inequalities (monotonicity, rate bounds, fixed point, "
               "Fejer monotonicity in the algorithm's own metric, convergence) are evaluated after every prefix against an "
               "independently computed and certified optimum.")
-LEVEL_NOTE = ("Problems have <= 6 unknowns; horizon K = 60/400 updates for the per-prefix inequalities and a convergence "
+LEVEL_NOTE = ("Problems have <= 6 unknowns; horizon K = 150/400 updates for the per-prefix inequalities and a convergence "
               "horizon per variant (see bounds); inequalities carry a slack of 1e-10 relative plus the reference's certified gap.")
 RULE = ("full product of matrices x regularisers x starts x step choices x options; one case = one solver run (all prefixes); "
         "non-trivial = x0 != x* (the solver has to move) ")
@@ -44,7 +44,7 @@ LAM = {"l1": 0.3, "l2sq": 0.5, "box": (-0.25, 0.4)}
 
 def bounds(tier):
     return {"matrices": MATS, "g": ["none", "l1(0.3)", "l2sq(0.5)", "box(-0.25,0.4) (real data only)"],
-            "prefix horizon K": (60 if tier == "quick" else 400), "worst-case instance": "difference matrix with 100 unknowns, K = 2000 prefixes, g in {none, l2sq}",
+            "prefix horizon K": (150 if tier == "quick" else 400), "worst-case instance": "difference matrix with 100 unknowns, K = 2000 prefixes, g in {none, l2sq}",
             "GradientMethod": {"alpha": ["1/L", "1/(2L)"], "accelerate": [False, True], "x0": ["zero", "generic"]},
             "PDHG": {"steps": ["balanced c=1", "balanced c=1/sqrt2", "unbalanced tau=1/||A||^2,sigma=1", "diagonal arrays"],
                      "gamma": ["none", "primal (g=l2sq)", "dual"], "start": ["zero", "generic", "saddle"],
@@ -143,7 +143,7 @@ def run_gm(case, seed):
     A, y, kind, par, xs, Fs, gap = reference(case, seed)
     real = case["A"] != "cplx32"
     n = A.shape[1]
-    K = case.get("K") or (60 if case["tier"] == "quick" else 400)
+    K = case.get("K") or (150 if case["tier"] == "quick" else 400)
     viol = []
     when = "accelerate=%s, alpha=%s, g=%s" % (case["acc"], case["alpha"], kind)
 
@@ -194,7 +194,7 @@ def run_pdhg(case, seed):
     A, y, kind, par, xs, Fs, gap = reference(case, seed)
     real = case["A"] != "cplx32"
     m, n = A.shape
-    K = 60 if case["tier"] == "quick" else 400
+    K = 150 if case["tier"] == "quick" else 400
     KC = 4000 if case["tier"] == "quick" else 20000
     viol = []
     when = "steps=%s, gamma=%s, g=%s" % (case["steps"], case["gamma"], kind)
